@@ -302,6 +302,40 @@ def check_pragma(ctx, n):
             ctx.violation({'kind': 'script-pragma-predicate', 'case': {'cmd': line, 'script': text}, 'impl': io})
 
 
+def check_metadata_only(ctx, n):
+    """ScriptRunner(script).metadata_only through the real constructor (scripts that
+    compile: assignments of embedded expressions) against the model's flag and the
+    property's predicate (every trimmed expression starts with %)."""
+    from pybufrkit.script import ScriptRunner
+    rng = ctx.rng
+    pool = ['%n_subsets', '%length', '001001', '/301011', ' %edition ', '\t%x', 'x%', '', ' ', '%', '% a', 'a > b']
+    scripts, exprs = [], []
+    for _ in range(n):
+        es = [rng.choice(pool) for _ in range(rng.choice([0, 1, 1, 2, 3, 5]))]
+        if rng.random() < 0.4:
+            es = [e for e in es if e.strip().startswith('%')]
+        body = ''.join('v%d = ${%s}\n' % (i, e) for i, e in enumerate(es))
+        body += rng.choice(['', "s = '${001001}'\n", '# ${001001}\n', 't = "${x}" # ${y}\n'])
+        scripts.append(body)
+        exprs.append(es)
+    mouts = lib.run_model_sharded(['prep ' + tok(s) for s in scripts])
+    for s, es, mo in zip(scripts, exprs, mouts):
+        line = 'prep ' + tok(s)
+        try:
+            with lib.time_limit(20):
+                r = ScriptRunner(s)
+            io = '1' if r.metadata_only else '0'
+        except Exception as e:
+            io = 'err %d' % lib.err_code(e)
+        want = '1' if all(e.strip().startswith('%') for e in es) else '0'
+        ctx.count(('metadata-only', s), len(es) > 0)
+        ctx.dist['metadata-only=%s' % io] += 1
+        ok = ctx.compare({'cmd': line, 'script': s}, io, mo.split(' ')[1], kind='script-metadata-only',
+                         holds=lambda: io == want)
+        if ok and io != want:
+            ctx.violation({'kind': 'script-metadata-only', 'case': {'cmd': line, 'script': s}, 'impl': io})
+
+
 # ---------------------------------------------------------------------------
 # flatten_data_values
 # ---------------------------------------------------------------------------
@@ -589,6 +623,7 @@ def run(ctx):
 
     # --- pragma, flatten, real scripts ------------------------------------------
     check_pragma(ctx, ctx.n(3000, 60000))
+    check_metadata_only(ctx, ctx.n(1500, 20000))
     check_flatten(ctx, ctx.n(1500, 30000))
     check_real_scripts(ctx, ctx.n(4, 6), ctx.n(6, 40))
 
